@@ -121,6 +121,12 @@ class State:
         a = self.get_arr('f:' + name)
         e = z3.simplify(z3.Select(a, obj.e))
         path = f'{obj.path}.{name}' if obj.path else None
+        kind = getattr(self.ctx, 'field_types', {}).get(name)
+        if kind is not None:
+            # contract-declared typing of a field (for every object): recorded as an assumption
+            from .vals import ACCESSOR
+            self.ctx.assumptions.add(f'field typing: .{name} always holds a value of kind {kind}')
+            return V(kind, z3.simplify(ACCESSOR[kind](e)), path=path)
         v = vany(e, path=path)
         v.maybe_none = (name in self.ctx.optional_fields)
         return v
